@@ -112,12 +112,21 @@ class C06(Prop):
     theorems = ["EaselModel.Props.C06." + t for t in (
         "codec_roundtrip", "codec_bigendian", "bsearch_correct", "write_spec", "write_ok_iff_distinct", "write_dup_no_file",
         "written_file", "open_written", "findName_stored", "findName_alias_partial", "findName_absent", "findNumber_sorted",
-        "fileInfo_spec")]
+        "fileInfo_spec", "internal_eq_external", "history_write", "history_index_correct", "exCross_wf",
+        "cross_class_duplicate_accepted")]
     claimed = True
     technique = ("Lean 4 proof about an executable model of esl_ssi.c (writer, on-disk layout, binary search, alias indirection) "
                  "+ exact differential correspondence (index bytes and every lookup) with the ASan/UBSan-built library")
-    level_text = ""
-    level_note = ""
+    level_text = ("Theorems (Lean 4, no bound on the number or length of keys beyond names/keys < 64 KB and < 2^40 keys) about an executable model that mirrors esl_ssi.c: "
+                  "big-endian u16/u32/u64/offset codecs round-trip every value; THIS binary search is correct on every strictly strcmp-sorted record array; "
+                  "for every history of AddFile/SetSubseq/AddKey/AddAlias calls with the switch to the external sort at any point, Write succeeds iff the primary keys are pairwise distinct and the aliases are pairwise distinct "
+                  "(else eslEDUP and no index file), and the external path emits the same bytes as the in-memory path; on the written bytes Open succeeds, FindName returns exactly the stored record for every primary key and "
+                  "every alias, eslENOTFOUND for every other string, FindNumber enumerates the keys in strcmp order, FileInfo returns name/format/line geometry. "
+                  "The model is tied to the working tree on every run by an exact differential run (index bytes and every lookup) against the ASan/UBSan build, plus an independent oracle on the library's outputs.")
+    level_note = ("Known finding C06:cross-class-duplicate (an alias equal to a primary key is accepted and shadowed; proved as a counter-example, witness replayed on the real code each run): the alias lookup theorem carries the hypothesis "
+                  "'alias is not a primary key' and Write's iff is per key class. Alias lookup also assumes AddAlias's documented precondition (target is a registered primary key). "
+                  "Trusted: Lean kernel + propext/Classical.choice/Quot.sound; the hand model's fidelity is checked by the differential run, not proved; qsort, sort(1) in the POSIX locale, system(), stdio are modelled (sort = bytewise sort of the lines); "
+                  "little-endian host with 64-bit off_t; esl_ssi_FindSubseq is modelled and compared but has no theorem; corrupt index files are outside the property.")
     diverge_is_violation = True
     trusted_base = ["hand model of esl_ssi.c tied by exact differential run (h_ssi.c, ASan+UBSan build of the working tree): index bytes and all lookup results",
                     "Lean compiler/runtime for the executable driver", "gcc, glibc (strcmp, strncpy, qsort, printf/strtoull, stdio), sort(1)"]
